@@ -17,8 +17,8 @@ def plan(pid, tier, seed):
     quick = tier == "quick"
     if quick:
         mc = [
-            {"module": "Cloc", "cfg": "Cloc_MC_quick.cfg", "emit": True, "sample": 400, "properties": PROPS_ALL, "timeout": 600},
-            {"module": "Cloc", "cfg": "Cloc_MC_top_quick.cfg", "emit": True, "sample": 300, "properties": PROPS_ALL, "timeout": 600},
+            {"module": "Cloc", "cfg": "Cloc_MC_quick.cfg", "emit": True, "sample": 300, "properties": PROPS_ALL, "timeout": 600},
+            {"module": "Cloc", "cfg": "Cloc_MC_top_quick.cfg", "emit": True, "sample": 200, "properties": PROPS_ALL, "timeout": 600},
         ]
     else:
         mc = [
@@ -35,7 +35,7 @@ def plan(pid, tier, seed):
         "needs_coca": True,
         "mc": mc,
         "gen": [],
-        "rand": 500 if quick else 8000,
+        "rand": 400 if quick else 8000,
         "trace": TRACE,
         "run_timeout": 6000,
     }
